@@ -7,6 +7,7 @@
 #include <pthread.h>
 
 #include "ops.h"
+#include "lib.h"
 
 #define NENV 16
 static const uint64_t ENVN[NENV] = {2, 4, 8, 16, 32, 64, 128, 256, 512, 1024, 2048, 4096, 8192, 16384, 32768, 65536};
@@ -186,10 +187,62 @@ static void concurrent_repeat_case(int envi, int native, int T, unsigned rep) {
   case_end(nops > 0);
 }
 
+// a table's own staging buffers are caller-writable memory: what the caller stores there between two calls is "something
+// that happened in between" and must not change the next transform of an unrelated vector
+static void table_buffers_case(uint64_t m, int layout, int inverse, int native) {
+  char key[96];
+  snprintf(key, sizeof key, "%s_%s|table buffers written between equal calls%s", layout ? "cplx" : "reim", inverse ? "ifft" : "fft", native ? "" : ",generic");
+  if (!case_begin(key, "m=%" PRIu64, m)) return;
+  g_case_aligned = 0;
+  g_case_place = 0;
+  rng_t* r = crng();
+  int saved = g_dispatch_native;
+  set_dispatch(native);
+  void* t;
+  double *b0, *b1;
+  if (!layout) {
+    t = inverse ? (void*)new_reim_ifft_precomp((uint32_t)m, 2) : (void*)new_reim_fft_precomp((uint32_t)m, 2);
+    b0 = inverse ? reim_ifft_precomp_get_buffer(t, 0) : reim_fft_precomp_get_buffer(t, 0);
+    b1 = inverse ? reim_ifft_precomp_get_buffer(t, 1) : reim_fft_precomp_get_buffer(t, 1);
+  } else {
+    t = inverse ? (void*)new_cplx_ifft_precomp((uint32_t)m, 2) : (void*)new_cplx_fft_precomp((uint32_t)m, 2);
+    b0 = inverse ? cplx_ifft_precomp_get_buffer(t, 0) : cplx_fft_precomp_get_buffer(t, 0);
+    b1 = inverse ? cplx_ifft_precomp_get_buffer(t, 1) : cplx_fft_precomp_get_buffer(t, 1);
+  }
+  set_dispatch(saved);
+  const size_t nb = 2 * m * 8;
+  double* x = malloc(nb);
+  double* y1 = malloc(nb);
+  double* y2 = malloc(nb);
+  for (uint64_t i = 0; i < 2 * m; i++) x[i] = rng_unit(r) * 2 - 1;
+  for (int round = 0; round < 3; round++) {
+    memcpy(round ? y2 : y1, x, nb);
+    double* y = round ? y2 : y1;
+    if (!layout) { if (inverse) reim_ifft(t, y); else reim_fft(t, y); }
+    else { if (inverse) cplx_ifft(t, y); else cplx_fft(t, y); }
+    if (round && memcmp(y1, y2, nb)) {
+      viol("history", "%s_%s (m=%" PRIu64 ", %s): the same vector transforms to other bits after the caller stored data in the table's own buffers (round %d)", layout ? "cplx" : "reim", inverse ? "ifft" : "fft", m, native ? "native" : "generic", round);
+      break;
+    }
+    // the caller uses the staging buffers for something else
+    for (uint64_t i = 0; i < 2 * m; i++) {
+      b0[i] = rng_unit(r) * 1e3;
+      b1[i] = (double)(int64_t)rng_sbits(r, 40);
+    }
+  }
+  cnt("table_buffer_histories", 1);
+  sample("3 equal transforms with the table's two buffers overwritten in between: identical bits");
+  free(x); free(y1); free(y2);
+  free(t);
+  case_end(1);
+}
+
 void run_C15(void) {
   const int th = G.thorough;
   const unsigned nprog = th ? 40000 : 960;
   for (unsigned p = 0; p < nprog; p++) program_case(p, 300, (p % 8) == 0);
+  for (uint64_t m = 1; m <= 65536; m <<= 1)
+    for (int v = 0; v < 8; v++) table_buffers_case(m, v & 1, (v >> 1) & 1, !(v >> 2));
   for (int envi = 0; envi < NENV; envi++)
     for (int native = 1; native >= 0; native--)
       for (unsigned rep = 0; rep < (th ? 6u : 1u); rep++) {
